@@ -68,9 +68,20 @@ fn c14_timer_body(version_sel: u8) {
     sh::set_reach(&mut src, reach);
     sh::set_tries(&mut src, tries);
 
+    // size of the reference-id request field an NTPv5 request of THIS source carries: 4-byte header
+    // + one chunk of the Bloom filter (the chunk size is fixed by the source's constructor)
+    let refid_req_len = 4 + ntp_proto::verif::packet::v5::server_reference_id::remote_raw(sh::bloom_filter(&src)).1 as usize;
+
     let (acts, n) = collect_actions(src.handle_timer());
 
+    // In a native replay `#[kani::stub]` is inert: the real request builder and encoder run and the
+    // recorder stays silent. Then only what is visible from outside is checked (no panic, size).
+    let native = matches!(&acts[0], Some(NtpSourceAction::Send(_))) && unsafe { PM_CALLS == 0 };
     let sent = match &acts[0] {
+        Some(NtpSourceAction::Send(p)) if native => {
+            assert!(p.len() <= 1024, "request fits the 1024-byte send buffer");
+            true
+        }
         Some(NtpSourceAction::Send(p)) => {
             assert!(n == 2 && matches!(acts[1], Some(NtpSourceAction::SetTimer(_))), "Send is followed by SetTimer only");
             assert!(p.len() <= 1024);
@@ -81,7 +92,7 @@ fn c14_timer_body(version_sel: u8) {
                 // builder: identifier + one cookie-sized field per requested cookie (+ draft id, v5)
                 // (c13_poll_message_*); handle_timer adds the reference-id request (v5); the encoder
                 // adds the authenticator (40 bytes for an empty plaintext); sizes: c14_ef_size
-                let fixed = if v5 { 48 + 36 + 28 + 20 + 40 } else { 48 + 36 + 40 };
+                let fixed = if v5 { 48 + 36 + 28 + refid_req_len + 40 } else { 48 + 36 + 40 };
                 assert!(fixed + PM_NEW_COOKIES as usize * ef_wire(l) <= 1024, "the request that is asked for fits the 1024-byte send buffer");
             }
             true
